@@ -924,6 +924,10 @@ def program_c17(rnd):
             for st, use in imp:
                 body.append(st)
                 body += use
+        # rarely the body fails half way: the error ends the program (the importer does not continue)
+        if rnd.random() < 0.06:
+            body.insert(rnd.randint(1, len(body)), rnd.choice([Raise(Call(Var("Error"), [Str("in " + name)])), ExprSt(Prop(Nil(), "x")),
+                                                              ExprSt(Index(List([Num(1)]), Num(5)))]))
         body.append(Print(Str(f"done {name}"), Var("n")))
         mods[name] = Module(body)
         exports[name] = ["v", "inc", "get", "C"]
